@@ -125,13 +125,14 @@ def simplex_case_check(case):
     import odl
     from odl.solvers.nonsmooth.proximal_operators import proj_simplex
     n, d = case['n'], case['diameter']
-    a = np.array(case['x'], dtype=float)
-    space = odl.rn(n) if case['space'] == 'NumpyTensorSpace' else odl.uniform_discr(0, 2, n)
+    shape = tuple(case.get('shape') or (n,))
+    a = np.array(case['x'], dtype=float).reshape(shape)
+    space = odl.rn(shape) if case['space'] == 'NumpyTensorSpace' else odl.uniform_discr([0] * len(shape), [2] * len(shape), shape)
     try:
         x = space.element(a.copy())        # element(arr) wraps without copy: keep `a` as the independent record
         r1 = proj_simplex(x, d)
         same_x = np.array_equal(x.asarray(), a)
-        out = space.element(np.full(n, 7.5))
+        out = space.element(np.full(shape, 7.5))
         r2 = proj_simplex(x, d, out)
         xa = space.element(a.copy())
         r3 = proj_simplex(xa, d, xa)
@@ -176,7 +177,17 @@ def unit_simplex_bounded():
                     case = {'n': n, 'space': spname, 'x': a.tolist(), 'diameter': float(rng.uniform(0.3, 3.0))}
                     bad = simplex_case_check(case)
                     ctx.bounded('proj_simplex contract (frame, out, aliasing, projection)', not bad, case, detail=bad)
-    return Unit('simplex/contract', run, funcs=[makers.PROX + 'proj_simplex'], kind='B', bounded_in='sizes 1..9, 6 random inputs each, rn and uniform_discr')
+        # domains with several axes (the projection is onto the simplex of ALL entries)
+        for shape in ((2, 3), (3, 4), (4, 2), (2, 2, 3)):
+            for trial in range(4):
+                for spname in ('NumpyTensorSpace', 'DiscretizedSpace'):
+                    a = rng.standard_normal(shape) * 2
+                    if trial == 1:
+                        a = np.round(a)
+                    case = {'n': int(np.prod(shape)), 'shape': list(shape), 'space': spname, 'x': a.ravel().tolist(), 'diameter': float(rng.uniform(0.3, 3.0))}
+                    bad = simplex_case_check(case)
+                    ctx.bounded('proj_simplex contract (frame, out, aliasing, projection)', not bad, case, detail=bad)
+    return Unit('simplex/contract', run, funcs=[makers.PROX + 'proj_simplex'], kind='B', bounded_in='sizes 1..9 and shapes (2,3), (3,4), (4,2), (2,2,3); 4-6 random inputs each, rn and uniform_discr')
 
 def unit_canary():
     """must-fail: a proximal that reads x after overwriting it through out (soft threshold written as
